@@ -21,4 +21,4 @@ For each change deliver, under {wt}/SEED/A/ (and SEED/B/):
   * a demonstration: a Go test file (say which package directory it has to be copied into, e.g. demo_test.go for package uasc) or a small main program, which FAILS (or panics / hangs past its own timeout / reports the violation) with the change applied and PASSES on the pristine tree; keep it self-contained and fast (< 60 s); it may use only the library's public API or, if it lives in the package directory, package internals;
   * README.md — which clause of the property the change breaks, what exactly is needed for it to manifest, and the exact commands you ran with their outcome (build, test suite, demo with and without the change).
   * meta.json — {{"demo_files": [{{"src": "<file name inside SEED/A/>", "dest": "<path relative to the worktree root where it must be copied, e.g. uasc/seed_demo_test.go>"}}], "demo_cmd": "<exact shell command, run from the worktree root with the Go environment above, that runs the demonstration, e.g. go test -vet=off -count=1 -run '^TestSeedDemo$' ./uasc/>", "breaks": "<one sentence: which clause of the property>", "needs": "<one sentence: what it needs to manifest>"}}; the demo command must exit non-zero with the change applied and 0 on the pristine tree.
-Verify all of that yourself before you finish: start from the pristine tree (`git -C {wt} status` clean, `git -C {wt} stash`/`git checkout -- .` as needed), apply A, build, run the suite, run the demo (must fail), revert, run the demo (must pass); same for B. Leave the worktree's tracked files pristine at the end (only the untracked SEED/ directory remains). If you can only find one good change, deliver one. Finish with a short summary of A and B.""")
+Verify all of that yourself before you finish: start from the pristine tree (`git -C {wt} status` clean, `git -C {wt} checkout -- .` as needed; never use `git stash`: the stash is shared by all worktrees of this repository and other people use it; keep your change as a file instead: `git diff > /tmp/...; git checkout -- .; git apply file`), apply A, build, run the suite, run the demo (must fail), revert, run the demo (must pass); same for B. Leave the worktree's tracked files pristine at the end (only the untracked SEED/ directory remains). If you can only find one good change, deliver one. Finish with a short summary of A and B.""")
